@@ -257,6 +257,17 @@ def c064(ctx):
     link = ctx.calls(R, f, r"sync42::wait_list::WaitList::link$")
     ih = ctx.calls(R, f, r"sync42::wait_list::WaitGuard::is_head$")
     dr = [p for p in P.call_points(f, r"core::mem::drop$") if any("WaitGuard" in f.locals[a["pl"]["l"]] for a in P.term_at(f, p)["args"] if a.get("k") in ("move", "copy"))]
+    # the hand-off is failure-atomic: once the first of the rollover's state writes has happened, nothing can fail before the section is
+    # complete (the thread has linked into the wait list) -- an error in between leaves `mem`, `mem_log` and `imm` unpaired, and a
+    # restarted flush thread then overwrites the immutable memtable that still holds acknowledged writes
+    swap_writes = [p for p in imm_some + w_mem + w_log + w_msn if any(not P.order(f, [p], [l_]) for l_ in link)]
+    errs = P.error_points(f)
+    for p in swap_writes:
+        q = P.reach(f, P.after(f, p), errs, avoid=set(link))
+        ctx.check(R, f, "handoff-failure-atomic", q is None, "no error exit lies between the rollover's state writes and the end of the hand-off",
+                  "_memtable_thread can fail (return an error) after it has begun to rewrite the store state and before the hand-off is complete: "
+                  "the memtable, its log and the immutable memtable are left unpaired; when the flush thread is started again it replaces the "
+                  "immutable memtable, and writes acknowledged before the failure are no longer readable", pt=p, path=q)
     tu = ctx.calls(R, f, r"alloc::sync::Arc.*::try_unwrap$")
     seal = ctx.calls(R, f, r"sst::log::ConcurrentLogBuilder::seal$")
     ing = ctx.calls(R, f, r"lsmtk::tree::LsmTree::_ingest$")
